@@ -147,9 +147,15 @@ DISPATCH = [("int", True), ("unsigned", False), ("std::int8_t", True), ("cnl::in
             ("cnl::overflow_integer<int, cnl::saturated_overflow_tag>", True), ("cnl::elastic_integer<150, cnl::wide_integer<31, int>>", True), ("cnl::static_integer<300>", True)]
 
 
+# width rule: cnl::trailing_bits<T> of a signed T counts on the unsigned type of the SAME width (seeded changes M-C18-6 /
+# M-C15-6: static_cast<std::uintmax_t>(n) loses the upper word of a 128-bit value)
+TB_TYPES = [("std::int8_t", 8), ("std::int16_t", 16), ("int", 32), ("long", 64), ("long long", 64), ("cnl::int128_t", 128), ("cnl::uint128_t", 128), ("unsigned", 32)]
+_UBITS = {"unsigned char": 8, "unsigned short": 16, "unsigned int": 32, "unsigned long": 64, "unsigned long long": 64, "unsigned __int128": 128}
+
+
 def dispatch_rule(r, work):
     from vlib import ir
-    src = tc.PRELUDE["clang"] + "".join('extern "C" int ud_%d(%s const& v) { return cnl::used_digits(v); }\nextern "C" int lb_%d(%s const& v) { return cnl::leading_bits(v); }\n' % (i, t, i, t) for i, (t, sg) in enumerate(DISPATCH))
+    src = tc.PRELUDE["clang"] + "".join('extern "C" int tb_%d(%s const& v) { return cnl::trailing_bits(v); }\n' % (i, t) for i, (t, w) in enumerate(TB_TYPES)) + "".join('extern "C" int ud_%d(%s const& v) { return cnl::used_digits(v); }\nextern "C" int lb_%d(%s const& v) { return cnl::leading_bits(v); }\n' % (i, t, i, t) for i, (t, sg) in enumerate(DISPATCH))
     p, out = os.path.join(work, "ud.cpp"), os.path.join(work, "ud.ll")
     open(p, "w").write(src)
     rc, so, se, cmd = tc.clang_ll(p, out, "o1ni")
@@ -189,6 +195,30 @@ def dispatch_rule(r, work):
                     "negative values are counted as if they were huge positive ones or as 0 digits" if sg else "the signed algorithm negates an unsigned value"), {"type": t, "frontier": sorted(front)})
             else:
                 n_ok += 1
+    for i, (t, w) in enumerate(TB_TYPES):
+        entry = "tb_%d" % i
+        if entry not in mod.functions:
+            r.broke("width rule: entry %s vanished" % entry)
+            continue
+        front, seen, st = set(), set(), [entry]
+        while st:
+            x = st.pop()
+            for y in edges.get(x, ()):
+                if y in seen:
+                    continue
+                seen.add(y)
+                m = re.search(r"cnl::countr_zero(?:<[^()]*>)?\(([^()]*)\)", dem.get(y, ""))
+                if m:
+                    front.add(m.group(1).replace(" const&", "").strip())
+                else:
+                    st.append(y)
+        if not front:
+            r.broke("width rule: no countr_zero reachable from trailing_bits(%s)" % t)
+        elif any(_UBITS.get(u) != w for u in front):
+            r.violation("width/trailing_bits/%s" % t, "cnl::trailing_bits(%s) counts the trailing zeros of %s, not of the %d-bit unsigned counterpart of its operand: bits above are ignored / invented"
+                        % (t, ", ".join(sorted(front)), w), {"type": t, "frontier": sorted(front)})
+        else:
+            n_ok += 1
     return n_ok
 
 
@@ -242,7 +272,7 @@ def run(tier, seed, work):
     n_dispatch = dispatch_rule(r, work)
     n_dep = dependence_rule(r, work)
     common.floor_check(r, "two-word dependence instances", n_dep, len(DEP_FNS))
-    common.floor_check(r, "signedness-dispatch instances", n_dispatch, 2 * len(DISPATCH))
+    common.floor_check(r, "signedness-dispatch and width instances", n_dispatch, 2 * len(DISPATCH) + len(TB_TYPES))
     obs = gen_eq()
     ctl = common.controls()
     kern.run_obligations(work, obs + ctl, batch=10)
